@@ -17,6 +17,7 @@ type Contract struct {
 	Lemmas   []*Lemma
 	OnStores []*OnStore
 	OnCalls  []*OnCall
+	Decreases map[string][]*Clause // loop key -> measures
 	OnMapDeletes []*OnStore // assertions at delete(m, k) where m was loaded from the named field ($key, $was, $owner)
 	OnMapUpdates []*OnStore // assertions at m[k] = v where m was loaded from the named field ($key, $value, $was, $owner)
 	CountStores []string // struct field names whose stores are counted in ghost $nstore_<field>
